@@ -1,0 +1,10 @@
+// Copyright 2026 The Go Authors. All rights reserved.
+// Use of this source code is governed by a BSD-style
+// license that can be found in the LICENSE file.
+
+//go:build !verif
+
+package filedesc
+
+// Verification hook; a no-op unless built with the "verif" tag.
+func verifFileInit(stage int, fd *File) {}
